@@ -145,16 +145,23 @@ Definition parsed_of (b : bundle) (ts : list (bytes * bytes * list ientry)) : pa
 Definition headers_ok (b : bundle) : bool :=
   forallb (fun x => is_ok (encode_response_header (bx_status x) (bx_hdr x))) (b_exchanges b).
 
+(* checkURL on every exchange URL (valid UTF-8, fragment / credentials) *)
+Definition urls_ok (b : bundle) : bool :=
+  forallb (fun x => url_writable (bx_url x)) (b_exchanges b).
+
 Definition b_write_nf (b : bundle) : R bytes :=
   let v := b_ver b in
   let* _ := chk (headers_ok b) in
+  let* _ := chk (urls_ok b) in
   let* ts := index_pres v (groups_of (ients_of b)) in
-  let* _ := (match v, b_primary b with BV2, Some u => chk (utf8_valid u) | _, _ => Ok tt end) in
+  let* _ := (match v, b_primary b with
+             | BV2, Some u => chk (fst (abs_url_ok u) && utf8_valid u) | _, _ => Ok tt end) in
   let* _ := (match b_manifest b with
-             | Some u => match v with BV1 => chk (utf8_valid u) | BV2 => Err end
+             | Some u => match v with BV1 => chk (fst (abs_url_ok u) && utf8_valid u) | BV2 => Err end
              | None => Ok tt end) in
   let* _ := (match v, b_primary b with
-             | BV1, Some u => chk (utf8_valid u) | BV1, None => Panic | BV2, _ => Ok tt end) in
+             | BV1, Some u => chk (fst (any_url_ok u) && utf8_valid u) | BV1, None => Err
+             | BV2, _ => Ok tt end) in
   Ok (final_bytes v (parsed_of b ts)).
 
 Lemma responses_eq (xs : list bexchange) :
@@ -168,17 +175,24 @@ Proof.
   unfold b_write, b_write_nf.
   destruct (add_exchanges_cases (b_exchanges b) (enc_array_header (lenN (b_exchanges b))) [])
     as [[X E]|[X E]]; rewrite E; cbn [bind].
-  { (* some header map has a duplicate name *)
-    assert (Hh : headers_ok b = false).
-    { unfold headers_ok. apply not_true_is_false. intros T. rewrite forallb_forall in T.
-      apply Exists_exists in X. destruct X as [x [Hx Ex]]. specialize (T x Hx). rewrite Ex in T. discriminate. }
-    rewrite Hh. reflexivity. }
+  { (* some header map or some URL is refused *)
+    destruct (headers_ok b) eqn:Hh; cbn [chk bind]; [|reflexivity].
+    assert (Hu : urls_ok b = false).
+    { unfold urls_ok. apply not_true_is_false. intros T. rewrite forallb_forall in T.
+      unfold headers_ok in Hh. rewrite forallb_forall in Hh.
+      apply Exists_exists in X. destruct X as [x [Hx [Ex|Ex]]].
+      - specialize (Hh x Hx). rewrite Ex in Hh. discriminate.
+      - specialize (T x Hx). rewrite Ex in T. discriminate. }
+    rewrite Hu. reflexivity. }
   assert (Hh : headers_ok b = true).
   { unfold headers_ok. apply forallb_forall. intros x Hx. rewrite Forall_forall in X. specialize (X x Hx).
+    destruct X as [X _].
     destruct (encode_response_cases x) as [[E1 E2]|_]; [congruence|].
     destruct (erh_cases (bx_status x) (bx_hdr x)) as [E1|[hc E1]]; rewrite E1; [|reflexivity].
     unfold encode_response in X. rewrite E1 in X. discriminate. }
-  rewrite Hh. cbn [chk bind rev app].
+  assert (Hu : urls_ok b = true).
+  { unfold urls_ok. apply forallb_forall. intros x Hx. rewrite Forall_forall in X. apply (X x Hx). }
+  rewrite Hh, Hu. cbn [chk bind rev app].
   rewrite index_section_eq.
   replace (lenN (enc_array_header (lenN (b_exchanges b)))) with (off0 b)
     by (unfold off0; rewrite enc_arr_item; reflexivity).
@@ -187,13 +201,13 @@ Proof.
   rewrite responses_eq.
   unfold parsed_of, sections_of, prim_sec_of, man_sec_of, sig_sec_of, sig_bytes_of.
   destruct (b_ver b) eqn:V; cbn [has_primary_in_header supports_manifest];
-    destruct (b_primary b) as [pu|]; destruct (b_manifest b) as [mu|]; cbn [bind];
-    try (destruct (enc_text_cases mu) as [[Um Em]|[Um Em]]; rewrite Em, Um; cbn [bind chk]; [|reflexivity]);
-    try reflexivity;
-    try (destruct (enc_text_cases pu) as [[Up Ep]|[Up Ep]]; rewrite ?Ep, ?Up; cbn [bind chk]);
-    try reflexivity;
-    destruct (b_sigs b) as [sg|]; cbn [bind];
-    try (destruct (signatures_section_total sg) as [sb Es]; rewrite Es; cbn [bind]);
-    try reflexivity.
+    destruct (b_primary b) as [pu|]; destruct (b_manifest b) as [mu|];
+    destruct (b_sigs b) as [sg|];
+    try (destruct (signatures_section_total sg) as [sb Es]; rewrite Es).
+  all: try (destruct (enc_text_cases pu) as [[Up Ep]|[Up Ep]]; rewrite ?Ep, ?Up).
+  all: try (destruct (enc_text_cases mu) as [[Um Em]|[Um Em]]; rewrite ?Em, ?Um).
+  all: try destruct (fst (any_url_ok pu)); try destruct (fst (abs_url_ok pu));
+       try destruct (fst (abs_url_ok mu)).
+  all: cbn [negb andb chk bind]; try reflexivity.
   all: try (f_equal; rewrite <- assemble_eq; reflexivity).
 Qed.
